@@ -118,6 +118,9 @@ spec fn lineOf(e error) int = as(e, "*LineError").Line
 
 func Parse
   requires dst != nil
+  // what a line means is Record.UnmarshalText's business (property C07);
+  // Parse only needs its frame and the log of its calls
+  from (*Record).UnmarshalText nothing
   loop 0
     invariant errs_local: isnil(errs) || fresh(errs)
     invariant line_counter: lineNum == scanCount(deref(s)) + 1 && lineNum >= 1
